@@ -57,7 +57,9 @@ def gen_script(rng, tier):
             steps.append(['issue', T])
             ncalls += 1
         elif r < p_issue + p_adv:
-            steps.append(['adv', rng.choice([1, 1, 2, 3, 5, 11, 31])])
+            # multiples of the 10 ms tick, and fractions of it (so that e.g. the client can finish opening between a
+            # call's deadline and the tick its timer is rounded up to)
+            steps.append(['adv', rng.choice([1, 1, 2, 3, 5, 11, 31, 0.2, 0.45, 0.7, 1.3])])
         elif ncalls:
             c = rng.randrange(ncalls)
             kind = rng.random()
@@ -317,7 +319,7 @@ def run_script(script):
                 lower_got[cid].AsyncProcessResponseMessage(m)
                 emit('lower %d %s %d' % (cid, vfmt(tuple(o)) if o != 'timeout' else 'timeout', t))
             elif kind == 'adv':
-                target = now() + st[1] * 10000
+                target = now() + int(round(st[1] * 10000))
                 # stop at every grid point so that timer actions get their own observation
                 while True:
                     del fired[:]
